@@ -575,6 +575,49 @@ func TestVerifReuse(t *testing.T) {
 					reuseViol("secretsharing.Share", "aliased-argument-or-result", "threshold", deg, "secret", secb, "recovered", rb)
 				}
 			}
+			// ShareWithID: the identifier is an operand; one counter scalar is
+			// re-used for several calls (and overwritten afterwards), and the ID
+			// of a share is overwritten: neither reaches the other one, and the
+			// earlier shares still recover the secret
+			{
+				sec := g.RandomScalar(r)
+				secb, _ := sec.MarshalBinary()
+				sw := secretsharing.New(lib.NewRng("c11/ss-id", i), 2, sec)
+				id := g.NewScalar()
+				var shs []secretsharing.Share
+				var ids [][]byte
+				for j := 1; j <= 4; j++ {
+					id.SetUint64(uint64(10 + j))
+					ib, _ := id.MarshalBinary()
+					ids = append(ids, ib)
+					shs = append(shs, sw.ShareWithID(id))
+				}
+				id.SetUint64(777)
+				lib.Count("reuse:share-with-id-counter-reused")
+				okIDs := true
+				for j, sh := range shs {
+					b, _ := sh.ID.MarshalBinary()
+					okIDs = okIDs && lib.Eq(b, ids[j])
+				}
+				var rec group.Scalar
+				var rerr error
+				pn := lib.Try("secretsharing.Recover:after-id-reuse", secb, func() { rec, rerr = secretsharing.Recover(2, shs[:3]) })
+				var rb []byte
+				if pn == nil && rerr == nil {
+					rb, _ = rec.MarshalBinary()
+				}
+				if !okIDs || pn != nil || rerr != nil || !lib.Eq(rb, secb) {
+					reuseViol("secretsharing.ShareWithID", "aliased-argument-or-result", "share_ids_kept", okIDs, "recover_panicked", pn != nil, "err", rerr, "recovered_ok", lib.Eq(rb, secb))
+				}
+				id2 := g.NewScalar().SetUint64(5)
+				sh := sw.ShareWithID(id2)
+				sh.ID.SetUint64(6)
+				ib, _ := id2.MarshalBinary()
+				want, _ := g.NewScalar().SetUint64(5).MarshalBinary()
+				if !lib.Eq(ib, want) {
+					reuseViol("secretsharing.ShareWithID", "operand-modified", "what", "writing to the share's ID changed the caller's identifier")
+				}
+			}
 			secret := g.RandomScalar(r)
 			sb, _ := secret.MarshalBinary()
 			ss := secretsharing.New(lib.NewRng("c11/ss", i), 1, secret)
